@@ -487,7 +487,7 @@ static void ChildRunStep(int pid, size_t idx) {
   if (it == P->children.end()) return;
   Child& c = it->second;
   // steps of one child keep their order even when their events tie in time
-  while (!c.exited && c.next_step <= idx && c.next_step < c.plan.steps.size()) {
+  while ((!c.exited || c.survivor) && c.next_step <= idx && c.next_step < c.plan.steps.size()) {
   size_t cur = c.next_step++;
   ChildStep& st = c.plan.steps[cur];
   switch (st.kind) {
@@ -506,7 +506,13 @@ static void ChildRunStep(int pid, size_t idx) {
       ChildCloseOutput(c);
       break;
     case ChildStep::kExit:
-      ChildDie(c, st.status);
+      if (c.survivor) {   // the rest of the command ends; its shell was reaped long ago
+        c.survivor = false;
+        ChildCloseOutput(c);
+        g_k->Trace(Ev::kChildExit, c.pid, st.status, c.cmd);
+      } else {
+        ChildDie(c, st.status);
+      }
       break;
   }
   }
@@ -521,11 +527,20 @@ static void ScheduleChild(Kernel* k, int pid) {
 }
 
 // kill(2) semantics for a scripted child
-static void ChildSignal(Child& c, int sig) {
+static void ChildSignal(Child& c, int sig, bool group = true) {
   if (c.exited) return;
   if (sig == 0) return;
   int mode = c.plan.on_signal;
   if (sig == SIGKILL) mode = 0;
+  if (!group && c.plan.multi_process) {
+    // only the shell got the signal: it dies and can be reaped, the program goes on and
+    // finishes whenever it finishes (no kChildExit yet: the command is still running)
+    c.exited = true;
+    c.status = sig & 0x7f;
+    c.survivor = true;
+    P->pending |= 1ull << SIGCHLD;
+    return;
+  }
   if (mode == 2) return;  // ignores the signal
   c.killed = true;
   if (mode == 1) {
@@ -1390,7 +1405,7 @@ int __wrap_kill(pid_t pid, int sig) {
   g_k->Trace(Ev::kKill, target, sig, pid < 0 ? "group" : "pid");
   auto it = P->children.find(target);
   if (it == P->children.end()) { errno = ESRCH; return -1; }
-  ChildSignal(it->second, sig);
+  ChildSignal(it->second, sig, pid < 0);
   return 0;
 }
 
